@@ -15,7 +15,8 @@ RULE = ('server message sequences over a 40-letter alphabet (CAP LS/ACK/NAK/NEW/
         'advertise / NAK-or-withhold / DEL / NEW-or-LS sequences; "credentials only after ACK sasl" and "CAP END only when nothing is outstanding" '
         'are judged against the server\'s own books (requested = the CAP REQ lines seen, ACKed/NAKed = its own messages; diffed against the model '
         'upd_ack), never the bot\'s sets; the three capability sets must be distinct objects after every step; sequences and games on second / '
-        'third connections (after resets); the fast queue is part of every compared state, TAKE events drain it through the real takeMsg, '
+        'third connections (after resets); every message goes through the REAL Irc.feedMsg (tagging, nick/server bookkeeping, dispatch, '
+        'IrcState.addMsg; no plugin callbacks), numerics that rename the bot to another nick or to one of its alternates included; the fast queue is part of every compared state, TAKE events drain it through the real takeMsg, '
         'and batches of several server lines followed by ERROR / driver reset check that nothing queued before a reset is handed to the driver '
         'after it and that the first line of a connection is CAP LS. '
         'Liveness: lock-step games of the real Irc against the conformant-server strategy of coq/C08/Model.v (python mirror, diffed against the '
@@ -44,9 +45,11 @@ LEVEL_TEXT = ('Coq theorems over an executable Gallina model of the CAP/SASL reg
               'Tie: FSM table/expect lists/requested set and the shapes of the repaired guards regenerated by AST; per-step refinement check of the real Irc object.')
 LEVEL_NOTE = ('Trusted: Coq kernel, gen_tables.py, extraction + driver, harness; stub driver semantics (reset on reconnect); base64/credential '
               'chunks as inputs; liveness against a conformant server is stated for the model server strategy only (see DESIGN). '
-              'Modelled, not verified / not modelled (gap audit): the handlers are driven directly (Irc.dispatchCommand), so Irc.feedMsg\'s own '
-              'pre-processing is outside the model -- the nick/server setters (001-005, 25x, 37x rewrite irc.nick, which do43x/_getNextNick compare '
-              'with), IrcState.addMsg (004/005 -> supported umodes filter of do376) and the plugin callbacks (postTransition, inFilter; none loaded); '
+              'Modelled, not verified / not modelled (gap audit): every step runs through the real Irc.feedMsg; of its pre-processing the model has the '
+              'nick bookkeeping (_nickSetters overwrite irc.nick before the handler: Model.nick_setter; table NICK_SETTERS), under the assumptions that '
+              'the configured alternates are distinct, that a random nick variant is new, and that a numeric in _nickSetters carries at least one '
+              'argument (without one feedMsg raises IndexError before the handler; never fed); irc.server, message tags, IrcState.addMsg (004/005 -> '
+              'supported umodes filter of do376) and plugin callbacks (postTransition, inFilter, the callbacks themselves; none loaded) are not modelled; '
               'ECDSA with a readable key (signature = opaque oracle; probed by hand: the challenge round and the wrong-size-challenge abort behave as '
               'modelled) and SCRAM (module absent) are outside the liveness theorem; zombie/die() during registration and requireStarttls are never '
               'configured; one Irc object per rig except the two configurations that first set up a second network with SASL credentials; takeMsg\'s '
@@ -222,7 +225,14 @@ class Rig:
                 # the nick generator: alternates left; the configured nick itself has already been proposed
                 len(irc.alternateNicks), self.base_nick in irc.triedNicks,
                 # irc.fastqueue: the lines queued for the driver and not taken yet
-                [line_of(x) for x in irc.fastqueue]]
+                [line_of(x) for x in irc.fastqueue],
+                # feedMsg's bookkeeping: irc.nick is no longer the configured nick; it is the k-th of the alternates that are left
+                irc.nick != self.base_nick, wire.opt(None if irc.afterConnect else self.alt_index(irc.nick))]
+
+    def alt_index(self, nick):
+        """position of nick among the alternates that are left, expanded as _getNextNick expands them"""
+        left = [(a % self.base_nick) if '%s' in a else a for a in self.irc.alternateNicks]
+        return left.index(nick) if nick in left else None
 
     def feed(self, m):
         """m: wire-form message; returns (outputs, swallowed exception name or None)"""
@@ -235,14 +245,29 @@ class Rig:
         cmd = {0: 'CAP', 1: 'AUTHENTICATE', 3: 'ERROR', 4: 'PING'}.get(m[0]) or ('%03d' % m[1])
         args = m[2] if m[0] == 2 else m[1]
         msg = ircmsgs.IrcMsg(prefix='irc.example.org', command=cmd, args=tuple(args))
-        method = irc.dispatchCommand(msg.command, msg.args)
-        exc = None
-        if method is not None:
-            try:
-                method(msg)        # what feedMsg does before state.addMsg; the firewall would swallow the exception
-            except Exception as e:
-                exc = type(e).__name__
-        return list(self.log), exc
+        # the REAL Irc.feedMsg: tagging, nick/server bookkeeping, dispatch, IrcState.addMsg, (no) callbacks; its firewall swallows the
+        # handler's exception, so the dispatcher is wrapped to see which one it was
+        box = {}
+        orig = irc.dispatchCommand
+
+        def dispatch(command, args=None):
+            method = orig(command, args)
+            if method is None:
+                return None
+
+            def handler(m):
+                try:
+                    return method(m)
+                except Exception as e:
+                    box['exc'] = type(e).__name__
+                    raise
+            return handler
+        irc.dispatchCommand = dispatch
+        try:
+            irc.feedMsg(msg)
+        finally:
+            del irc.dispatchCommand
+        return list(self.log), box.get('exc')
 
 
 def b64_bits(snapshot_dec, args):
@@ -258,13 +283,13 @@ def b64_bits(snapshot_dec, args):
 
 
 def canon_state(s):
-    return [s[0], s[1], sorted(s[2]), sorted(s[3]), sorted(s[4]), s[5], s[6], s[7], s[8], s[9], s[10], s[11], bool(s[12]), s[13]]
+    return [s[0], s[1], sorted(s[2]), sorted(s[3]), sorted(s[4]), s[5], s[6], s[7], s[8], s[9], s[10], s[11], bool(s[12]), s[13], bool(s[14]), s[15]]
 
 
 def dec_state(v):
     return [v[0], [[wire.s(e[0]), wire.opt(wire.o(e[1], wire.s))] for e in v[1]], sorted(wire.ls(v[2])), sorted(wire.ls(v[3])),
             sorted(wire.ls(v[4])), wire.ls(v[5]), wire.opt(wire.o(v[6], wire.s)), bool(v[7]),
-            [[wire.ls(d[0]), bool(d[1])] for d in v[8]], bool(v[9]), bool(v[10]), v[11], bool(v[12]), dec_out(v[13])]
+            [[wire.ls(d[0]), bool(d[1])] for d in v[8]], bool(v[9]), bool(v[10]), v[11], bool(v[12]), dec_out(v[13]), bool(v[14]), wire.opt(wire.o(v[15]))]
 
 
 def dec_out(v):
@@ -294,8 +319,9 @@ ALPHABET = ([[0, ['*', 'LS', b]] for b in LS_BODIES] +
              [0, ['*', 'LS', 'labeled-response']], [0, ['*', 'DEL', 'labeled-response']], [0, ['*', 'NEW', 'echo-message']],
              [0, ['*', 'NEW', 'labeled-response']], [0, ['*', 'DEL', 'echo-message labeled-response']],
              [1, ['+']], [1, [CHUNK]], [1, ['QUJD']], [1, ['A']], [1, []],
-             [2, 903, ['n', 'ok']], [2, 904, ['n', 'failed']], [2, 906, ['n']], [2, 908, ['n', 'PLAIN,EXTERNAL', 'are available']], [2, 908, ['n']],
-             [2, 375, ['n', 'motd']], [2, 376, ['n', 'end']], [2, 422, ['n', 'no motd']], [2, 433, ['*', 'n', 'in use']], [2, 1, ['n', 'welcome']],
+             [2, 903, ['test', 'ok']], [2, 904, ['test', 'failed']], [2, 906, ['test']], [2, 908, ['test', 'PLAIN,EXTERNAL', 'are available']], [2, 908, ['test']],
+             [2, 375, ['test', 'motd']], [2, 376, ['test', 'end']], [2, 422, ['test', 'no motd']], [2, 433, ['*', 'test', 'in use']], [2, 1, ['test', 'welcome']],
+             [2, 1, ['other', 'welcome']], [2, 5, ['test`', 'CHANTYPES=#', 'are supported']], [2, 433, ['*', 'other', 'in use']], [2, 4, ['test', 'srv', 'v', 'iow', 'abc']],
              [3, ['Closing link: x']], [3, ['Reconnecting too fast']], [3, []], [4, ['x']], [5]])
 
 
@@ -636,6 +662,10 @@ def run_sequence(ctx, mods, cfgi, secure, seq, model=True, kind='seq', oracle=No
             if m[0] == 1:
                 ok, empty = b64_bits(before[8], m[1])
                 wm = [1, m[1], ok, empty]
+            if m[0] == 2 and m[2]:
+                # canonical first argument: "1" = the configured nick, "0" = another one (see Model.nick_setter)
+                k = rig.alt_index(m[2][0])
+                wm = [2, m[1], ['1' if m[2][0] == rig.base_nick else chr(97 + k) if k is not None and k < 26 else '0'] + list(m[2][1:])]
             out, exc = rig.feed(m)
             after = rig.snapshot()
             steps.append((rig.wcfg, before, wm, after, out, exc))
@@ -800,6 +830,14 @@ def sequences(ctx):
 
 
 CORPUS = [
+    # Irc.feedMsg's nick bookkeeping in front of the handlers: a numeric renames the bot to its first alternate (the next 433 pops exactly that
+    # alternate: `assert newNick != self.nick` fires, no NICK), to another nick (after the alternates the configured nick itself is proposed)
+    {'cfg': 0, 'secure': True, 'seq': [[2, 5, ['test`', 'CHANTYPES=#', 'are supported']], [2, 433, ['*', 'test', 'in use']], [2, 433, ['*', 'x', 'in use']],
+                                       [2, 433, ['*', 'x', 'in use']], [2, 433, ['*', 'x', 'in use']]]},
+    {'cfg': 1, 'secure': True, 'seq': [[2, 1, ['other', 'welcome']], [2, 433, ['*', 'x', 'in use']], [2, 433, ['*', 'x', 'in use']], [2, 433, ['*', 'x', 'in use']],
+                                       [2, 433, ['*', 'x', 'in use']], [5], [2, 433, ['*', 'x', 'in use']]]},
+    {'cfg': 1, 'secure': True, 'seq': [[2, 4, ['test_', 'srv', 'v', 'iow', 'abc']], [2, 433, ['*', 'x', 'in use']], [2, 433, ['*', 'x', 'in use']], [2, 376, ['test_', 'end']],
+                                       [2, 433, ['*', 'x', 'in use']]]},
     # one read batch: AUTHENTICATE + and ERROR :Closing link with no takeMsg in between: the queued credentials must not be the first
     # thing sent on the next connection; CAP ACK then ERROR: no stale CAP END ahead of CAP LS
     {'cfg': 1, 'secure': True, 'seq': ['TAKE', [0, ['*', 'LS', 'sasl batch']], 'TAKE', [0, ['*', 'ACK', 'batch sasl']], 'TAKE', [1, ['+']],
